@@ -375,6 +375,14 @@ def r4_condoborda(ctx):
         if "CondoBorda" in o.construct:
             o.rule = "C06.R4"
             ctx.obs.append(o)
+    # prerequisite: a Borda tiebreak that leaves several groups still tied hands them to tiebroken_ranking, which must put every
+    # resolution at its group's own place (C10.R9 / C03.R8); otherwise a lower-Borda tier-mate is seated first
+    from rules import c10
+    sub = type(ctx)(ctx.prog, ctx.prop, ctx.tier)
+    c10.r9_resolution_assembly(sub)
+    for o in sub.obs:
+        o.rule = "C06.R4"
+        ctx.obs.append(o)
 
 
 RULES = [
